@@ -200,6 +200,12 @@ def bootstrap(stub_backends=False):
     if ev.get('isError'):
       b.log_errors.append(ev)
   txlog.addObserver(observer)
+  try:
+    # stop twisted from echoing unhandled-error events to stderr before logging "begins"
+    from twisted.logger import globalLogBeginner
+    globalLogBeginner.beginLoggingTo([], redirectStandardIO=False, discardBuffer=True)
+  except Exception:
+    pass
 
   b.event_names = ['metricReceived', 'metricGenerated', 'cacheOverflow', 'cacheFull',
                    'cacheSpaceAvailable', 'pauseReceivingMetrics', 'resumeReceivingMetrics']
